@@ -1,6 +1,7 @@
 import PonyVerif.Drive.Util
 import PonyVerif.Model.Inherit
 import PonyVerif.Model.JoinDiscr
+import PonyVerif.Model.SeedLoad
 /-
   Line-protocol entry for the C27 model (trusted glue).  A hierarchy is sent as `bases` (list of lists of class numbers, definition
   order) and `discr` (one integer code per class; equal discriminator values get equal codes).
@@ -56,9 +57,23 @@ def handleJoins (j : Json) : Except String Json := do
   | "m2m" => pure (jj (joinedRun .m2m hasDiscr calls))
   | _ => throw s!"unknown table reference kind {kind}"
 
+open PonyVerif.Model.SeedLoad PonyVerif.Gen.LoadGuards in
+def handleHandout (j : Json) : Except String Json := do
+  let site ← argStr j "site"
+  let hasSub ← argBool j "hasSub"
+  let isSeed ← argBool j "isSeed"
+  let s ← match site with
+    | "attrGet" => pure Site.attrGet | "setCopy" => pure Site.setCopy | "queryTuple" => pure Site.queryTuple | "findInCache" => pure Site.findInCache
+    | _ => throw s!"unknown site {site}"
+  -- the situation in which the engine observes the site: a live session, a present value, a first execution of the query
+  let c : LoadCtx := { notNone := true, isRef := true, hasSub := hasSub, alive := true, sessionAlive := true, isSeed := isSeed,
+                       manyToMany := true, notCached := true, exprIsEntity := false, singleColumn := false, isEntity := true, hasDiscr := hasSub }
+  pure (Json.mkObj [("normal", .bool (normal s c)), ("stillSeed", .bool (stillSeed s c))])
+
 def handle (j : Json) : Except String Json := do
   let op ← argStr j "op"
   if op == "joins" then return (← handleJoins j)
+  if op == "handout" then return (← handleHandout j)
   let h ← getHier j
   let cls := List.range h.n
   match op with
